@@ -609,11 +609,15 @@ func (ch *Channel) canSend() bool {
 // Call before calling nextMsgPacket()
 // Goroutine-safe
 func (ch *Channel) isSendPending() bool {
-	if len(ch.sending) == 0 {
+	if ch.sending == nil {
 		if len(ch.sendQueue) == 0 {
 			return false
 		}
 		ch.sending = <-ch.sendQueue
+		if ch.sending == nil {
+			// an empty message is still a message: it stays pending until its (empty, EOF) packet is written
+			ch.sending = []byte{}
+		}
 	}
 	return true
 }
